@@ -1752,3 +1752,49 @@ Proof.
     as (ps & Hps & Hi).
   exists ps. split; [assumption|]. rewrite Hi. unfold instant. cbn [wall off]. reflexivity.
 Qed.
+
+(* ------------------------------------------------------------------ round 5: the source of the draws *)
+
+(* value equality across processes IS draw equality: random_number is injective in the draw *)
+Lemma stuck_values_iff_stuck_draws mn mx step draw es :
+  mn <= mx -> 1 <= step ->
+  (forall e, In e es -> 0 <= draw e < (mx - mn) / step + 1) ->
+  (stuck (number_at mn mx step draw) es <-> stuck draw es).
+Proof.
+  intros H Hs Hr.
+  destruct (random_number_lattice mn mx step H Hs) as (n & _ & Hn & _ & Hk). subst n.
+  split; intros St e e' He He'.
+  - specialize (St e e' He He'). unfold number_at in St.
+    destruct (Hk (draw e) (Hr e He)) as (E1 & _). destruct (Hk (draw e') (Hr e' He')) as (E2 & _).
+    rewrite E1, E2 in St. injection St as St. nia.
+  - unfold number_at. rewrite (St e e' He He'). reflexivity.
+Qed.
+
+(* a position whose draw is the same in every process shows ONE lattice point: with at least two
+   points on the lattice, the two ends are not both produced, however many processes are run *)
+Lemma reseeded_source_misses_an_end mn mx step draw es :
+  mn + step <= mx -> 1 <= step -> stuck draw es ->
+  ~ (In (Ok mn) (values_over mn mx step draw es) /\
+     In (Ok (mx - (mx - mn) mod step)) (values_over mn mx step draw es)).
+Proof.
+  intros H Hs St (I1 & I2). unfold values_over in *.
+  apply in_map_iff in I1. destruct I1 as (e1 & E1 & He1).
+  apply in_map_iff in I2. destruct I2 as (e2 & E2 & He2).
+  unfold number_at in *. rewrite (St e1 e2 He1 He2) in E1. rewrite E1 in E2.
+  injection E2 as E2.
+  pose proof (Z.mod_pos_bound (mx - mn) step ltac:(lia)). lia.
+Qed.
+
+(* ... whereas two processes whose draws are the lowest and the highest one show both ends *)
+Lemma free_source_reaches_both_ends mn mx step draw e0 e1 :
+  mn <= mx -> 1 <= step -> draw e0 = 0 -> draw e1 = (mx - mn) / step ->
+  values_over mn mx step draw [e0; e1] = [Ok mn; Ok (mx - (mx - mn) mod step)].
+Proof.
+  intros H Hs D0 D1.
+  destruct (random_number_lattice mn mx step H Hs) as (n & _ & Hn & _ & Hk). subst n.
+  assert (Hq : 0 <= (mx - mn) / step) by (apply Z.div_pos; lia).
+  unfold values_over, number_at. cbn [map]. rewrite D0, D1.
+  destruct (Hk 0 ltac:(lia)) as (E0 & _). destruct (Hk ((mx - mn) / step) ltac:(lia)) as (E1 & _).
+  rewrite E0, E1. f_equal; [f_equal; lia |]. f_equal. f_equal.
+  pose proof (Z.div_mod (mx - mn) step ltac:(lia)). lia.
+Qed.
